@@ -317,11 +317,19 @@ fn drain_op(rng: &mut Rng) -> String {
 /// One run: `params`, the pieces, optional drains, `finish`.
 fn run_ops(rng: &mut Rng, l: Limits, verb: &str, data: &[u8], drains: bool, out: &mut Vec<String>) {
     out.push(l.op());
+    piece_ops(rng, l, verb, data, drains, out);
+    out.push("finish".into());
+}
+
+/// The pieces of `data` (random cuts, random methods), optional drains; no `params`, no `finish`.
+fn piece_ops(rng: &mut Rng, l: Limits, verb: &str, data: &[u8], drains: bool, out: &mut Vec<String>) {
     let cuts = cut_points(rng, data, l);
     let mut prev = 0;
-    let fixed_method = if rng.chance(1, 4) { Some(*rng.pick(&METHODS)) } else { None };
+    // the production encoder is also fed through its `ZeroCopySink` impl (S = append_borrow, T = append_copy)
+    let methods: &[&str] = if verb == "enc" && l.prod { &["b", "c", "a", "r", "S", "T", "S", "T"] } else { &METHODS };
+    let fixed_method = if rng.chance(1, 4) { Some(*rng.pick(methods)) } else { None };
     for c in cuts.iter().copied().chain(std::iter::once(data.len())) {
-        let m = fixed_method.unwrap_or_else(|| *rng.pick(&METHODS));
+        let m = fixed_method.unwrap_or_else(|| *rng.pick(methods));
         out.push(format!("{} {} {}", verb, m, to_hex(&data[prev..c])));
         prev = c;
         if rng.chance(1, 40) {
@@ -331,6 +339,80 @@ fn run_ops(rng: &mut Rng, l: Limits, verb: &str, data: &[u8], drains: bool, out:
             out.push(drain_op(rng));
         }
     }
+}
+
+/// A wire image that makes the decoder return `Err` from a `decode` call (not merely from
+/// `finish`): garbage / a valid prefix, then an out-of-radix or over-long header.
+fn failing_wire(rng: &mut Rng, l: Limits) -> Vec<u8> {
+    let mut w = Vec::new();
+    match rng.below(5) {
+        // bad first header
+        0 => w.push(((l.mi + 1 + rng.below(3) as usize).min(255)) as u8),
+        // a short first chunk (so a stuff sequence is owed), then a bad first digit
+        1 => {
+            let n = rng.below(l.mi as u64) as usize;
+            w.push(n as u8);
+            w.extend_from_slice(&filler(rng, n));
+            w.push(*rng.pick(&[0xFDu8, 0xFE, 0xFF]));
+        }
+        // … a bad second digit
+        2 => {
+            let n = rng.below(l.mi as u64 + 1) as usize;
+            w.push(n as u8);
+            w.extend_from_slice(&filler(rng, n));
+            w.push(rng.below(253) as u8);
+            w.push(*rng.pick(&[0xFDu8, 0xFE, 0xFF]));
+        }
+        // … an over-long size
+        3 => {
+            let n = rng.below(l.mi as u64 + 1) as usize;
+            w.push(n as u8);
+            w.extend_from_slice(&filler(rng, n));
+            let big = (l.ms + 1 + rng.below(3) as usize).min(253 * 253 - 1);
+            w.push((big % 253) as u8);
+            w.push((big / 253) as u8);
+        }
+        // a valid message with a bad byte glued on
+        _ => {
+            let payload = custom_payload(rng, l, false);
+            w = ref_encode(l, &payload).bytes;
+            w.push(*rng.pick(&[0xFDu8, 0xFE, 0xFF]));
+        }
+    }
+    // bytes after the error point, in the same call: they are dropped with the call
+    for _ in 0..rng.below(4) {
+        w.push(rng.next() as u8);
+    }
+    w
+}
+
+/// One decoder object through `rounds` failed messages, then (mostly) a valid one, then
+/// `finish`: the object must behave like a fresh decoder after every `Err`.
+fn dec_after_error_case(rng: &mut Rng, l: Limits, thorough: bool, out: &mut Vec<String>) {
+    out.push(l.op());
+    let rounds = rng.range(1, 3);
+    let drains = rng.chance(1, 2);
+    for _ in 0..rounds {
+        let bad = failing_wire(rng, l);
+        if rng.chance(1, 2) {
+            // the whole failing message in one call
+            out.push(format!("dec {} {}", rng.pick(&METHODS), to_hex(&bad)));
+        } else {
+            piece_ops(rng, l, "dec", &bad, drains, out);
+        }
+        if drains && rng.chance(1, 3) {
+            out.push(drain_op(rng));
+        }
+    }
+    let last = match rng.below(6) {
+        0 => failing_wire(rng, l),
+        1 => dec_wire(rng, l, thorough),
+        _ => {
+            let payload = if l.prod { prod_payload(rng, thorough) } else { custom_payload(rng, l, thorough) };
+            ref_encode(l, &payload).bytes
+        }
+    };
+    piece_ops(rng, l, "dec", &last, drains, out);
     out.push("finish".into());
 }
 
@@ -339,6 +421,30 @@ fn run_ops(rng: &mut Rng, l: Limits, verb: &str, data: &[u8], drains: bool, out:
 
 pub fn enc_case(rng: &mut Rng, _idx: u64, thorough: bool) -> Vec<String> {
     let mut ops = Vec::new();
+    if rng.chance(1, 6) {
+        // `find_stuff_sequence` on its own: FE / FD runs, pairs at every position incl. the last two bytes
+        let n = match rng.below(4) {
+            0 => rng.range(0, 3),
+            1 => rng.range(3, 40),
+            2 => rng.range(60, 70),
+            _ => rng.range(0, 300),
+        } as usize;
+        let mut v: Vec<u8> = (0..n).map(|_| *rng.pick(&[0xFEu8, 0xFE, 0xFD, 0x00, 0xFF, 0x41])).collect();
+        if n >= 2 && rng.chance(1, 2) {
+            for b in v.iter_mut() {
+                if *b == 0xFD {
+                    *b = 0x42;
+                }
+            }
+            if rng.chance(2, 3) {
+                let r = rng.below(n as u64 - 1) as usize;
+                let at = (*rng.pick(&[0usize, n - 2, n / 2, r])).min(n - 2);
+                v[at] = 0xFE;
+                v[at + 1] = 0xFD;
+            }
+        }
+        ops.push(format!("find {}", to_hex(&v)));
+    }
     if rng.below(100) < 6 {
         let data = prod_payload(rng, thorough);
         let drains = rng.chance(2, 3);
@@ -669,6 +775,11 @@ pub fn dec_case(rng: &mut Rng, _idx: u64, thorough: bool) -> Vec<String> {
         return ops;
     }
     let l = custom_limits(rng);
+    if rng.chance(1, 6) {
+        let l = if rng.chance(1, 8) { Limits::prod() } else { l };
+        dec_after_error_case(rng, l, thorough, &mut ops);
+        return ops;
+    }
     let wire = dec_wire(rng, l, thorough);
     match rng.below(8) {
         0 if wire.len() <= 48 => {
@@ -722,6 +833,41 @@ fn dec_enumerated_strings(thorough: bool) -> Vec<Vec<String>> {
             for b in s {
                 ops.push(format!("dec c {}", to_hex(&[*b])));
             }
+            ops.push("finish".into());
+            runs += 1;
+        }
+        if runs >= 64 {
+            cases.push(std::mem::take(&mut ops));
+            runs = 0;
+        }
+    }
+    if !ops.is_empty() {
+        cases.push(std::mem::take(&mut ops));
+    }
+    // the decoder object after an error: every string up to length 3 (4 thorough) in ONE failing or
+    // succeeding call, then a complete valid message in a second call, `finish`; and the same with
+    // the first string fed byte by byte
+    let firsts = all_strings(&[0x00, 0x01, 0x02, 0x03, 0x04, 0xFD, 0xFF], if thorough { 4 } else { 3 });
+    let mut runs = 0;
+    let mut rot = 0usize;
+    for s in &firsts {
+        if s.is_empty() {
+            continue;
+        }
+        let tails: [&[u8]; 3] = [&[0x01, 0x41], &[0x02, 0x41, 0x42, 0x00, 0x00], &[0x00]];
+        let tail = tails[rot % 3];
+        rot += 1;
+        ops.push(l.op());
+        ops.push(format!("dec {} {}", if rot % 2 == 0 { "b" } else { "c" }, to_hex(s)));
+        ops.push(format!("dec {} {}", if rot % 4 < 2 { "c" } else { "a" }, to_hex(tail)));
+        ops.push("finish".into());
+        runs += 1;
+        if s.len() >= 2 {
+            ops.push(l.op());
+            for b in s {
+                ops.push(format!("dec b {}", to_hex(&[*b])));
+            }
+            ops.push(format!("dec b {}", to_hex(tail)));
             ops.push("finish".into());
             runs += 1;
         }
